@@ -173,3 +173,19 @@ R("C13", "dedupe-by-seen-list", UT, "    subclasses = cls.__subclasses__() + [\n
   "    result = []\n    for s in cls.__subclasses__():\n        for g in [s] + recursive_subclasses(s):\n            if g not in result:\n                result.append(g)\n    return result\n")
 R("C13", "for-loop-lookup", SGF, "        yield from (\n            instance.instance\n            for cls in [type_] + recursive_subclasses(type_)\n            for instance in list(self._class_to_wrapped_instances[cls])\n        )",
   "        for cls in [type_] + recursive_subclasses(type_):\n            for instance in list(self._class_to_wrapped_instances[cls]):\n                yield instance.instance")
+
+# ------------------------------------------------------------------------------------- C15
+M("C15", "owner-swap-back", PRL, "                self.source,\n                nxt_relation.target,\n                self.wrapped_field,", "                self.source,\n                nxt_relation.target,\n                nxt_relation.wrapped_field,", "PD-OWNER")
+M("C15", "owner-incoming-wrong", PRL, "                nxt_relation.source,\n                self.target,\n                nxt_relation.wrapped_field,", "                nxt_relation.source,\n                self.target,\n                self.wrapped_field,", "PD-OWNER")
+M("C15", "drop-incoming-direction", PRL, "            self.infer_transitive_relations_outgoing_from_source()\n            self.infer_transitive_relations_incoming_to_target()\n", "            self.infer_transitive_relations_outgoing_from_source()\n", "incoming")
+M("C15", "drop-outgoing-direction", PRL, "            self.infer_transitive_relations_outgoing_from_source()\n            self.infer_transitive_relations_incoming_to_target()\n", "            self.infer_transitive_relations_incoming_to_target()\n", "outgoing")
+M("C15", "drop-inverse", PRL, "            self.infer_super_relations()\n            self.infer_inverse_relation()\n", "            self.infer_super_relations()\n", "calls-inverse")
+M("C15", "drop-super", PRL, "            self.infer_super_relations()\n            self.infer_inverse_relation()\n", "            self.infer_inverse_relation()\n", "calls-super")
+M("C15", "no-write-back", PRL, "            if self.inferred:\n                self.update_source_wrapped_field_value()\n", "", "write-back")
+M("C15", "inferred-not-marked", PRL, "                super_domain, self.target, super_field, inferred=True\n", "                super_domain, self.target, super_field, inferred=False\n", "inferred-flag")
+M("C15", "transitive-wrong-neighbourhood", PRL, "        yield from SymbolGraph().get_outgoing_relations_with_condition(\n            self.target, relation_condition\n        )", "        yield from SymbolGraph().get_outgoing_relations_with_condition(\n            self.source, relation_condition\n        )", "outgoing")
+M("C15", "super-drops-role-taker", PRL, "        yield from self.direct_super_relations\n        yield from self.role_taker_super_relations\n", "        yield from self.direct_super_relations\n", "both-sources")
+M("C15", "inferred-bypass-procedure", PRL, "            self.__class__(\n                inverse_domain, self.source, inverse_field, inferred=True\n            ).add_to_graph()", "            SymbolGraph().add_relation(self.__class__(\n                inverse_domain, self.source, inverse_field, inferred=True\n            ))", "")
+M("C15", "transitive-any-property", PRL, "        relation_condition = (\n            lambda relation: relation.property_descriptor_cls\n            is self.property_descriptor_cls\n        )\n        yield from SymbolGraph().get_outgoing", "        relation_condition = (\n            lambda relation: True\n        )\n        yield from SymbolGraph().get_outgoing", "same-property")
+M("C15", "super-pairs-wrong-class", PRL, "            for f in property_descriptor_cls.get_fields_of_superproperties(source_type)", "            for f in property_descriptor_cls.get_fields_of_superproperties(self.target.instance_type)", "PD-OWNER")
+R("C15", "type-self-ctor", PRL, "            self.__class__(\n                inverse_domain,", "            type(self)(\n                inverse_domain,")
